@@ -777,11 +777,39 @@ def compass_sweep(res, tier):
                                    'C14_cardinalDirection_spec / C14_compassDirection_spec (Dialect/Compass.v)',
                            'p0': [x0, y0], 'p1': [x1, y1], 'implementation_card_comp': [card, comp], 'theorem_card_comp': list(want),
                            'replay': '%s %d | grep "^%s %s %s %s "' % (exe, R, f[0], f[1], f[2], f[3])})
+    # the direction predicates (exhaustive: 8 compass directions, 4 x 4 cardinal pairs) against the statements of
+    # C14_card_predicates_algebra / C14_compass_predicates_on_cardinals / _on_diagonals (EAST 0, SOUTH 1, WEST 2, NORTH 3)
+    npred = 0
+    for ln in out.split('\n'):
+        f = ln.split()
+        try:
+            if f[:1] == ['PRED'] and len(f) == 10:
+                d = int(f[1])
+                got = [int(v) for v in f[2:]]
+                base = [int(d in (3, 1)), int(d in (0, 2)), int(d in (0, 1)), int(d in (3, 2))]
+                want = base + (base if d < 4 else [-1] * 4)
+            elif f[:1] == ['PAIR'] and len(f) == 5:
+                a, b = int(f[1]), int(f[2])
+                got = [int(f[3]), int(f[4])]
+                want = [int(a % 2 == b % 2), int(a % 2 != b % 2)]
+            else:
+                continue
+        except ValueError:
+            continue
+        npred += 1
+        if got != want and bad < 3:
+            bad += 1
+            res.violation({'what': 'a Compass direction predicate of the compiled library (ortho.h) differs from the statements of '
+                                   'C14_card_predicates_algebra / C14_compass_predicates_on_cardinals / _on_diagonals',
+                           'harness_line': ln, 'expected_fields': want, 'replay': '%s %d | grep "^%s"' % (exe, R, ' '.join(f[:3]))})
+    if npred != 24:
+        res.violation({'what': 'the Compass harness printed %d predicate lines instead of 24' % npred, 'stderr': err[-1500:]}, no_input=True)
+        bad += 1
     if rc != 0 or n != 9 * (2 * R + 1) ** 2:
         res.violation({'what': 'the Compass harness did not print the expected %d lines (rc=%s)' % (9 * (2 * R + 1) ** 2, rc),
                        'stderr': err[-1500:]}, no_input=True)
         bad += 1
-    res.cov['compass_sweep'] = {'pairs': n, 'mismatches': bad, 'R': R, 'bases': 3, 'scales': [1, 0.125, 1024],
+    res.cov['compass_sweep'] = {'predicate_lines': npred, 'pairs': n, 'mismatches': bad, 'R': R, 'bases': 3, 'scales': [1, 0.125, 1024],
                                 'coincident_pairs_expect_runtime_error': 9}
     return bad
 
@@ -1052,7 +1080,9 @@ META = {
                 'distinct points is the exact sign pattern of (dx, dy) (C14_compassDirection_spec, _antisym) and agrees with cardinalDirection on cardinal directions, '
                 'otherwise cardinalDirection is one of its two cardinal components (C14_compass_cardinal_consistent); the throw for coincident points is '
                 'translated as a recorded precondition, proved equivalent to the hypothesis `distinct` (C14_compassDirection_returns_iff_distinct), and also checked by the lattice sweep (compiled functions vs the theorem statements on 9 x (2R+1)^2 pairs, R = 4 / 12), '
-                'which is also the search for a failing input when a Compass proof or translation breaks. '
+                'which is also the search for a failing input when a Compass proof or translation breaks; the direction predicates of ortho.h (isHorizontal/Vertical/Increasing/Decreasing[Card], '
+                'sameDimension, arePerpendicular) are translated too: their algebra on the four cardinals, on the diagonals, and their meaning on a computed direction '
+                '(C14_card_predicates_algebra, C14_compass_predicates_on_cardinals, _on_diagonals, C14_cardinalDirection_predicates), swept exhaustively. '
                 'Oracle and padding: Proved in Coq, for all drawings and '
                 'all tolerance settings: the checker hola_ok is sound AND complete for the declaratively stated output conditions of doHOLA '
                 '(same node ids; same multiset of (source,target) edges; every node keeps its width and height; no two node rectangles have a '
